@@ -1,51 +1,73 @@
-"""C09 / B4 (equivalence): BEP barriers for both BEP classes, all eight descriptors, both directions, a grid of slopes
-(0-1) / intercepts (0-60 kcal/mol) / temperatures, three unit systems, exothermic and endothermic steps (negative
-barriers included), StatMech and empirical species.  Every barrier is compared BIT FOR BIT (==, and the type of the
-result) with ((slope or slope-1) * descriptor + intercept) * R(units)/R(kcal/mol) evaluated by hand; the digest printed
-at the end is the same on both trees.  Exit 0 on both trees."""
+"""C09 / B4 (equivalence): clamped activation enthalpies and Gibbs energies of ChemkinReaction and SurfaceReaction
+(dimensionless and in four unit systems), with and without transition state, exothermic / endothermic, barrierless /
+high barrier, both directions, keyword and positional calls, what the Chemkin / OpenMKM writers print.  Every value is
+compared BIT FOR BIT (==) with max(0, delta(act), delta) of the plain base class Reaction; signatures are compared
+with the documented ones; the digest printed at the end is the same on both trees.  Exit 0 on both trees."""
 import hashlib
+import inspect
 import itertools
 import sys
 import numpy as np
 from pmutt import constants as c
-from pmutt.statmech import StatMech, presets
+from pmutt.empirical import GasPressureAdj
 from pmutt.empirical.nasa import Nasa
-from pmutt.reaction import Reaction
-from pmutt.reaction.bep import BEP
-from pmutt.omkm.reaction import BEP as OmkmBEP
+from pmutt.chemkin import CatSite
+from pmutt.reaction import ChemkinReaction, Reaction
+from pmutt.omkm.reaction import SurfaceReaction
+from pmutt.omkm.phase import InteractingInterface
+from pmutt.cantera.phase import IdealGas
 
 
-def adsorbate(name, E, *wavenumbers):
-    return StatMech(name=name, potentialenergy=E, vib_wavenumbers=list(wavenumbers), **presets['harmonic'])
+def nasa(name, H, S, phase='G', cat_site=None, cp=3.5, gas=False):
+    a = np.array([cp, 1e-3, 0., 0., 0., H, S])
+    return Nasa(name=name, T_low=100., T_mid=1000., T_high=3000., a_low=a, a_high=a, phase=phase, cat_site=cat_site,
+                misc_models=[GasPressureAdj()] if gas else None)
 
 
-def nasa(name, H, S, cp=3.5):
-    a = np.array([cp, 1e-3, -2e-7, 0., 0., H, S])
-    return Nasa(name=name, T_low=100., T_mid=1000., T_high=3000., a_low=a, a_high=a, phase='G')
+def chemkin_species(H_ts):
+    site = CatSite(name='RU(S)', site_density=2.5e-9, density=12.1, bulk_specie='RU(B)')
+    return {'H2': nasa('H2', 0., 10., gas=True), 'RU(S)': nasa('RU(S)', 0., 0., 'S', site, cp=0.),
+            'H(S)': nasa('H(S)', -3000., 1., 'S', site, cp=1.), 'O(S)': nasa('O(S)', -9000., 2., 'S', site, cp=1.5),
+            'OH(S)': nasa('OH(S)', -11000., 3., 'S', site, cp=2.), 'TS(S)': nasa('TS(S)', H_ts, 6., 'S', site, cp=2.5)}
 
 
-DESC = ('delta_H', 'rev_delta_H', 'reactants_H', 'products_H', 'delta_E', 'rev_delta_E', 'reactants_E', 'products_E')
-out, types, bad = [], set(), 0
-for cls, desc in itertools.product((BEP, OmkmBEP), DESC):
-    bep = cls(slope=0.5, intercept=10., name='bep', descriptor=desc)
-    sm = {'A': adsorbate('A', -1.2, 450., 1200., 3100.), 'B': adsorbate('B', -0.4, 300., 900.),
-          'C': adsorbate('C', -1.1, 250., 700., 1500., 2900.), 'bep': bep}
-    ns = {'A': nasa('A', -1000., 20.), 'B': nasa('B', 500., 25., cp=4.), 'C': nasa('C', -9500., 22., cp=3.8), 'bep': bep}
-    rxns = [Reaction.from_string('A + B = bep = 2C', sm), Reaction.from_string('2C = bep = A + B', sm)]
-    if desc.endswith('_H'):
-        rxns += [Reaction.from_string('A + B = bep = 2C', ns), Reaction.from_string('2C = bep = A + B', ns)]
-    for rxn, slope, icpt, T, rev in itertools.product(rxns, (0., 0.3, 0.75, 1.), (0., 17.5, 60.), (300., 650.), (False, True)):
-        bep.slope, bep.intercept = slope, icpt
-        val = bep._get_descriptor_val(reaction=rxn, T=T)
-        adj = (slope if rev else slope - 1.) if 'rev_delta' in desc else (slope - 1. if rev else slope)
-        for u in ('kcal/mol', 'J/mol', 'eV'):
-            got = bep.get_E_act(units=u, reaction=rxn, rev=rev, T=T)
-            want = (adj * val + icpt) * c.R(u + '/K') / c.R('kcal/mol/K')
-            bad += not (got == want) or type(got) is not type(want)
-            types.add(type(got).__name__)
-            out.append(got)
-        out += [bep.get_EoRT_act(reaction=rxn, rev=rev, T=T), bep.get_HoRT(reaction=rxn, T=T), bep.get_UoRT(reaction=rxn, T=T),
-                rxn.get_delta_HoRT(T=T, rev=rev, act=True), rxn.get_A(T=T, rev=rev)]
-print('%d values (barrier types: %s), %d barriers differ bitwise from the hand formula' % (len(out), sorted(types), bad))
+def omkm_species(H_ts):
+    sp = chemkin_species(H_ts)
+    gas = IdealGas(name='gas', species=[sp['H2']])
+    surf = InteractingInterface(name='terrace', species=[], site_density=2.5e-9)
+    for k, v in sp.items():
+        v.phase = gas if k == 'H2' else surf
+    return sp
+
+
+STEPS = ('H2 + 2RU(S) = 2H(S)', '2H(S) = H2 + 2RU(S)', 'H2 + 2RU(S) = TS(S) + RU(S) = 2H(S)',
+         'H(S) + O(S) = TS(S) + RU(S) = OH(S) + RU(S)', 'OH(S) + RU(S) = TS(S) + RU(S) = H(S) + O(S)')
+out, bad = [], 0
+for (cname, cls, mk), H_ts, step in itertools.product((('ChemkinReaction', ChemkinReaction, chemkin_species),
+                                                        ('SurfaceReaction', SurfaceReaction, omkm_species)),
+                                                       (-20000., -6000., 2000., 30000.), STEPS):
+    rxn = cls.from_string(step, mk(H_ts))
+    ref = Reaction.from_string(step, chemkin_species(H_ts))
+    act = ref.transition_state is not None
+    for T, P, rev in itertools.product((300., 500., 900.), (0.01, 1., 50.), (False, True)):
+        for X in ('H', 'G'):
+            d = getattr(ref, 'get_delta_%soRT' % X)
+            want = np.max([0., d(rev=rev, act=act, T=T, P=P), d(rev=rev, act=False, T=T, P=P)])
+            got = [getattr(rxn, 'get_%soRT_act' % X)(rev=rev, T=T, P=P), getattr(rxn, 'get_%soRT_act' % X)(rev, T=T, P=P)]
+            if X == 'G':        # documented (and ignored) parameter of get_GoRT_act
+                got += [rxn.get_GoRT_act(rev, True, T=T, P=P), rxn.get_GoRT_act(rev=rev, act=True, T=T, P=P)]
+            bad += sum(not (g == want) for g in got)
+            out += got + ([rxn.get_A(T=T, P=P, rev=rev), rxn.get_A(T=T, P=P, include_entropy=False, sden_operation="min")] if X == "H" else [])
+            for u in ('kcal/mol', 'J/mol', 'eV', 'kJ/mol'):
+                out.append(getattr(rxn, 'get_%s_act' % X)(units=u, T=T, P=P, rev=rev))
+    # what the classes hand to the kinetic-model files
+    if cls is SurfaceReaction:
+        out.append(float(np.sum([ord(ch) for ch in rxn.to_cti(T=500., P=2.)])))
+# the public signatures
+for cls in (ChemkinReaction, SurfaceReaction):
+    s1, s2 = str(inspect.signature(cls.get_HoRT_act)), str(inspect.signature(cls.get_GoRT_act))
+    bad += (s1, s2) != ('(self, rev=False, **kwargs)', '(self, rev=False, act=False, **kwargs)')
+    bad += not (cls.get_HoRT_act.__doc__ and cls.get_GoRT_act.__doc__)
+print('%d values, %d clamps differ bitwise from max(0, delta(act), delta) of the base class' % (len(out), bad))
 print('digest', hashlib.sha256(np.array(out, dtype=float).tobytes()).hexdigest())
 sys.exit(1 if bad else 0)
